@@ -188,7 +188,7 @@ class Gen:
                 op = r.choice(["<", ">", "<=", ">=", "==", "!="])
                 self.coverage.add((op, nt1, nt2))
                 return ("bin", op, self.expr(env, nt1, depth - 1, pure), self.expr(env, nt2, depth - 1, pure), "boolean")
-            if k < 0.62:
+            if k < 0.66:
                 op = r.choice(["&&", "||"])
                 lt, rt = r.choice(["boolean", "bit"]), r.choice(["boolean", "bit"])
                 self.coverage.add((op, lt, rt))
@@ -391,7 +391,9 @@ class Gen:
             inner = dict(env)
             inner[iv] = "int"
             body = self.stmts(inner, r.randint(1, 3), depth - 1, ret, tuple(protected) + (iv,))
-            form = r.choice(["for", "for++", "while"])
+            form = r.choice(["for", "for++", "while", "forcall"])
+            if form == "forcall":
+                self.need_step = True
             return ("loop", form, iv, n, body)
         if depth > 0 and k < 0.90:
             cond = self.expr(env, "boolean", 2)
@@ -430,6 +432,19 @@ class Gen:
             params.append((pn, "int[]"))
             env[pn] = "int[]"
         body = self.stmts(env, r.randint(1, 4), 2, None if ret == "void" else ret)
+        if ret != "void" and not ret.endswith("[]") and r.random() < 0.35:
+            # early return from inside a loop whose increment clause is itself a call
+            iv = self.fresh("i")
+            n = r.randint(1, 4)
+            form = r.choice(["forcall", "for", "while", "forcall"])
+            if form == "forcall":
+                self.need_step = True
+            hit = r.randint(0, n)
+            inner = dict(env)
+            inner[iv] = "int"
+            body.append(("loop", form, iv, n, [
+                ("if", ("bin", "==", ("var", iv, "int"), ("lit", "int", hit), "boolean"),
+                 [("ret", self.expr(inner, ret, 2))], None)]))
         if ret == "void":
             body.append(("echo", self.expr(env, "string", 2), "string"))
         else:
@@ -475,7 +490,7 @@ class Gen:
         self.finals = set()
         env = {}
         main = self.stmts(env, self.r.randint(4, 12), 2)
-        return dict(funcs=self.funcs, main=main)
+        return dict(funcs=self.funcs, main=main, need_step=getattr(self, "need_step", False))
 
 
 # ---------------------------------------------------------------------------------------------
@@ -488,7 +503,45 @@ def flt(v):
     return s + "f"
 
 
+MINIMAL = [False]
+PREC = {"||": 2, "&&": 3, "|": 4, "^": 5, "&": 6, "==": 7, "!=": 7, "<": 8, ">": 8, "<=": 8, ">=": 8,
+        "+": 9, "-": 9, "*": 10, "/": 10, "%": 10}
+
+
+def rx_min(e, min_prec=0):
+    """Render with only the parentheses the documented precedence/associativity require."""
+    k = e[0]
+    if k == "bin":
+        p = PREC[e[1]]
+        s = "%s %s %s" % (rx_min(e[2], p), e[1], rx_min(e[3], p + 1))
+        return "(" + s + ")" if p < min_prec else s
+    if k == "un":
+        inner = rx_min(e[2], 11)
+        s = e[1] + (" " if inner.startswith("-") else "") + inner
+        return "(" + s + ")" if 11 < min_prec else s
+    if k == "cast":
+        inner = rx_min(e[2], 0)
+        s = "(%s)(%s)" % (e[1], inner)
+        return "(" + s + ")" if 11 < min_prec else s
+    if k == "call":
+        return "%s(%s)" % (e[1], ", ".join(rx_min(a) for a in e[2]))
+    if k == "idx":
+        inner = rx_min(e[2])
+        if inner.startswith("-"):
+            inner = "(" + inner + ")"   # a constant negative index is a parse-time error by design
+        return "%s[%s]" % (e[1], inner)
+    if k == "lit" and e[1] in ("int", "long", "float") and e[2] < 0:
+        return "(" + rx_full(e) + ")"
+    return rx_full(e)
+
+
 def rx(e):
+    if MINIMAL[0]:
+        return rx_min(e)
+    return rx_full(e)
+
+
+def rx_full(e):
     k = e[0]
     if k == "lit":
         t, v = e[1], e[2]
@@ -509,20 +562,20 @@ def rx(e):
     if k == "var":
         return e[1]
     if k == "bin":
-        return "(%s %s %s)" % (rx(e[2]), e[1], rx(e[3]))
+        return "(%s %s %s)" % (rx_full(e[2]), e[1], rx_full(e[3]))
     if k == "un":
-        return "(%s%s)" % (e[1], rx(e[2]))
+        return "(%s%s)" % (e[1], rx_full(e[2]))
     if k == "cast":
         # the operand is always parenthesised: whether a cast applies to a whole postfix chain
         # ((int)f(x), (int)a[0]) is not fixed by the documentation
-        inner = rx(e[2])
+        inner = rx_full(e[2])
         if not inner.startswith("("):
             inner = "(" + inner + ")"
         return "((%s)%s)" % (e[1], inner)
     if k == "call":
-        return "%s(%s)" % (e[1], ", ".join(rx(a) for a in e[2]))
+        return "%s(%s)" % (e[1], ", ".join(rx_full(a) for a in e[2]))
     if k == "idx":
-        return "%s[%s]" % (e[1], rx(e[2]))
+        return "%s[%s]" % (e[1], rx_full(e[2]))
     if k == "post":
         return "%s%s" % (e[2], e[1])
     raise ValueError(e)
@@ -557,7 +610,10 @@ class Renderer:
         elif k == "assign":
             self.emit(ind, "%s = %s;" % (s[1], rx(s[2])), s)
         elif k == "aassign":
-            self.emit(ind, "%s[%s] = %s;" % (s[1], rx(s[2]), rx(s[3])), s)
+            ix = rx(s[2])
+            if ix.startswith("-"):
+                ix = "(" + ix + ")"
+            self.emit(ind, "%s[%s] = %s;" % (s[1], ix, rx(s[3])), s)
         elif k == "poststmt":
             self.emit(ind, "%s%s;" % (s[2], s[1]), s)
         elif k == "ret":
@@ -583,7 +639,8 @@ class Renderer:
                 self.emit(ind + 1, "%s = %s + 1;" % (iv, iv))
                 self.emit(ind, "}")
             else:
-                inc = "%s = %s + 1" % (iv, iv) if form == "for" else "%s++" % iv
+                inc = {"for": "%s = %s + 1" % (iv, iv), "for++": "%s++" % iv,
+                       "forcall": "%s = stepUp(%s)" % (iv, iv)}[form]
                 self.emit(ind, "for (int %s = 0; %s < %d; %s) {" % (iv, iv, n, inc), s)
                 for t in body:
                     self.stmt(t, ind + 1)
@@ -610,6 +667,11 @@ class Renderer:
         items = [("f", f) for f in funcs] + [("m", None)]
         if order is not None:
             items = [items[i] for i in order]
+        if prog.get("need_step"):
+            self.emit(0, "function stepUp(int s) -> int {")
+            self.emit(1, "int nexts = s + 1;")
+            self.emit(1, "return nexts;")
+            self.emit(0, "}")
         for kind, f in items:
             if kind == "f":
                 self.function(f)
@@ -621,9 +683,13 @@ class Renderer:
         return "\n".join(self.lines) + "\n"
 
 
-def render(prog, order=None):
+def render(prog, order=None, minimal=False):
     r = Renderer()
-    src = r.program(prog, order)
+    MINIMAL[0] = minimal
+    try:
+        src = r.program(prog, order)
+    finally:
+        MINIMAL[0] = False
     return src, r.line_of
 
 
@@ -886,7 +952,7 @@ def make_program(rng, hostile=False, tries=30):
     for _ in range(tries):
         g = Gen(rng, hostile)
         prog = g.program()
-        src, line_of = render(prog)
+        src, line_of = render(prog, minimal=rng.random() < 0.4)
         res = Interp(prog, line_of).execute()
         if res[0] != "keptout":
             return prog, src, line_of, res, g.coverage
